@@ -137,6 +137,20 @@ def run(tier):
         if r2.violated != 'HistoryIndependent':
             raise MachineryError('vacuity guard: the pre-fix model is not refuted (%s)' % r2.violated)
         rep.setcov('model', dict(histories=len(hists), states=r.distinct, prefix_variant_refuted=True))
+        # (a') histories of any length: Apalache discharges an inductive invariant over the same Validate
+        # operator at the real cache limit; guards: the pre-fix step is not inductive, IndInit is not vacuous
+        from concurrent.futures import ThreadPoolExecutor
+        obligations = [('base', 'Init', 'IndInv', 0, 'Next', 'NoError'), ('step', 'IndInit', 'IndInv', 1, 'Next', 'NoError'),
+                       ('aswas_step_refuted', 'IndInit', 'IndInv', 1, 'NextAsWas', 'Error'),
+                       ('indinit_reaches_full_cache', 'IndInit', 'NotFullWithFailure', 0, 'Next', 'Error')]
+        with ThreadPoolExecutor(max_workers=4) as ex:
+            apa = list(ex.map(lambda o: common.run_apalache(specdir, 'Apa_SchemaCache', o[1], o[2], o[3], next_=o[4], tag=o[0]), obligations))
+        for o, got in zip(obligations, apa):
+            if got != o[5]:
+                raise MachineryError('Apalache obligation %s of Apa_SchemaCache: expected %s, got %s' % (o[0], o[5], got))
+        rep.setcov('inductive_invariant', dict(tool='apalache', module='Apa_SchemaCache', max_len=20, keys=24,
+                                               obligations={o[0]: g for o, g in zip(obligations, apa)},
+                                               meaning='HistoryIndependent holds after histories of any length in the model'))
         # (b) fresh outcomes: the oracle
         allcalls = [(c, ef) for c in sv + va for ef in (False, True)]
         with ctx.Pool(common.NCPU) as pool:
